@@ -40,6 +40,9 @@ type Hooks struct {
 	AfterGet  func(p *Pool)
 	BeforePut func(p *Pool)
 	AfterPut  func(p *Pool)
+	// OnGet / OnPut observe the object handed out / returned (evidence only: hand-offs between callers).
+	OnGet func(p *Pool, x any, fresh bool)
+	OnPut func(p *Pool, x any)
 }
 
 var hook atomic.Pointer[Hooks]
@@ -105,8 +108,12 @@ func (p *Pool) Get() any {
 		p.items = append(p.items[:i:i], p.items[i+1:]...)
 	}
 	p.mu.Unlock()
+	fresh := x == nil
 	if x == nil && p.New != nil {
 		x = p.New()
+	}
+	if h.OnGet != nil {
+		h.OnGet(p, x, fresh)
 	}
 	if h.AfterGet != nil {
 		h.AfterGet(p)
@@ -128,6 +135,9 @@ func (p *Pool) Put(x any) {
 	p.mu.Lock()
 	p.items = append(p.items, x)
 	p.mu.Unlock()
+	if h.OnPut != nil {
+		h.OnPut(p, x)
+	}
 	if h.AfterPut != nil {
 		h.AfterPut(p)
 	}
